@@ -20,7 +20,7 @@ import (
 
 var scriptFaults = []string{"replace-type", "duplicate", "omit", "truncate-body", "truncate-body+close", "set-byte", "handshake-length", "insert-record", "close-before", "close-inside", "stall", "fragment(legal)", "coalesce(legal)", "replace-body", "record-version", "oversize-record", "warning-alerts", "empty-record", "length-field", "finished-early", "plaintext-finished",
 	"hello-version", "hello-suites", "hello-compression", "server-bad-selection", "server-cert-list", "deadline", "crafted-key-exchange", "malformed-extensions", "cert-message-omitted", "ecdhe-server-params"}
-var scriptReach = []string{"honest-client-vs-gm-server", "honest-client-vs-auto-server", "honest-server-vs-gm-client", "must-complete-completed", "must-fail-failed", "unspecified-ok", "eut-client", "eut-server-gm", "eut-server-auto", "eut-server-tls", "alert-from-eut", "timeout-at-deadline", "legit-wait", "client-auth-path", "dev-in-client-flight", "dev-in-server-flight", "dev-after-ccs", "scripted-tls12-peer", "honest-tls12-client-vs-auto-server", "honest-tls12-client-vs-tls-server", "honest-tls12-server-vs-tls-client", "npn-negotiated", "unnegotiated-optional-message-refused", "honest-ecdhe-completed"}
+var scriptReach = []string{"honest-client-vs-gm-server", "honest-client-vs-auto-server", "honest-server-vs-gm-client", "must-complete-completed", "must-fail-failed", "unspecified-ok", "eut-client", "eut-server-gm", "eut-server-auto", "eut-server-tls", "alert-from-eut", "timeout-at-deadline", "legit-wait", "client-auth-path", "dev-in-client-flight", "dev-in-server-flight", "dev-after-ccs", "scripted-tls12-peer", "honest-tls12-client-vs-auto-server", "honest-tls12-client-vs-tls-server", "honest-tls12-server-vs-tls-client", "npn-negotiated", "unnegotiated-optional-message-refused", "honest-ecdhe-completed", "server-version-bounds", "server-getconfigforclient"}
 
 func init() {
 	register(Family{Name: "tls-scripted-peer", Prop: "C15", ID: 1501, Weight: 1, FaultNames: scriptFaults, ReachNames: scriptReach, Run: runScriptedPeer})
@@ -59,9 +59,14 @@ type scriptRun struct {
 	SrvECDHECurve, SrvECDHEWireCurve uint16
 	SrvECDHEPoint                    []byte
 	SrvSKXWrongKey, SrvSKXStale      bool
-	NPN                              bool // scripted client and server under test negotiate NPN: one more client unit (NextProtocol)
-	NPNOfferOnly                     bool // the scripted client offers NPN, the server under test has no protocols configured
-	NPNSkip                          bool // NPN negotiated, but the client never sends NextProtocol (consistent transcript)
+	SrvSKXOverList                   bool   // GM: sign the ServerKeyExchange over the second entry of the substituted certificate list
+	SrvSKXSigAlg                     uint16 // TLS ECDHE: SignatureAndHashAlgorithm named in the ServerKeyExchange (signature bytes stay RSA/SHA-256)
+	EUTNoVerify                      bool   // endpoint under test (client) runs with InsecureSkipVerify
+	EUTGetConfig                     bool   // endpoint under test (server) answers through GetConfigForClient
+	EUTMaxVers, EUTMinVers           uint16 // version bounds of the endpoint under test
+	NPN                              bool   // scripted client and server under test negotiate NPN: one more client unit (NextProtocol)
+	NPNOfferOnly                     bool   // the scripted client offers NPN, the server under test has no protocols configured
+	NPNSkip                          bool   // NPN negotiated, but the client never sends NextProtocol (consistent transcript)
 }
 
 // number of outgoing units of the honest peer (for drawing At)
@@ -216,6 +221,17 @@ func runScriptedPeer(c *simkit.Choice, r *simkit.Rec) {
 		}
 	}
 	// a GM-only server never completes with a TLS client, nor a TLS-only server with a GM client
+	if sr.EUTServer {
+		sr.EUTGetConfig = c.Bool(1, 3, simkit.LScen)
+		if c.Bool(1, 8, simkit.LScen) {
+			// version bounds on the server under test (whatever they make of an honest
+			// script: an error or a completion, never a crash or a hang)
+			sr.EUTMaxVers = []uint16{gmtls.VersionGMSSL, gmtls.VersionTLS10, gmtls.VersionTLS11, gmtls.VersionTLS12, gmtls.VersionSSL30}[c.Choose(5, simkit.LScen)]
+			if c.Bool(1, 3, simkit.LScen) {
+				sr.EUTMinVers = []uint16{gmtls.VersionGMSSL, gmtls.VersionTLS11, gmtls.VersionTLS12}[c.Choose(3, simkit.LScen)]
+			}
+		}
+	}
 	mismatch := sr.EUTServer && ((sr.SMode == modeTLS && !sr.TLS) || (sr.SMode == modeGM && sr.TLS))
 	sr.Expect = expComplete
 	sr.Why = "honest"
@@ -573,6 +589,12 @@ func runScriptedPeer(c *simkit.Choice, r *simkit.Rec) {
 					sr.SrvECDHEPoint = append([]byte{4}, drawData(c, 2*size-1)...)
 				case 5:
 					sr.SrvECDHEWireCurve = []uint16{22, 0x9999, 0xffff, 24, 1}[c.Choose(5, simkit.LFault)] // a P-256 point under another curve's name
+					if c.Bool(1, 2, simkit.LFault) {
+						// ... or genuine parameters under a signature algorithm the client did not
+						// offer, does not implement, or that does not fit the certificate
+						sr.SrvECDHEWireCurve = 0
+						sr.SrvSKXSigAlg = []uint16{0x0204, 0x0000, 0xffff, 0x0101, 0x0603, 0x0804, 0x0402, 0x0708, 0x0203, 0x0303}[c.Choose(10, simkit.LFault)]
+					}
 				case 6:
 					sr.SrvSKXWrongKey = true
 				case 7:
@@ -581,6 +603,9 @@ func runScriptedPeer(c *simkit.Choice, r *simkit.Rec) {
 					sr.SrvECDHEPoint = append([]byte{2}, drawData(c, size)...)
 				}
 				sr.Why = fmt.Sprintf("ECDHE ServerKeyExchange with bad parameters or signature (kind %d)", kind)
+				if sr.SrvSKXSigAlg != 0 {
+					sr.Why = fmt.Sprintf("ECDHE ServerKeyExchange naming signature algorithm %04x", sr.SrvSKXSigAlg)
+				}
 			case sub == 4:
 				// ServerHello carrying extensions the client did not ask for, or with
 				// malformed bodies. Whether each must be refused is not stated by the
@@ -667,6 +692,14 @@ func runScriptedPeer(c *simkit.Choice, r *simkit.Rec) {
 				case 2:
 					sr.SrvCertList = [][]byte{pki.DER("srv-sign"), pki.DER("srvrsa")}
 					sr.Why = "encryption certificate with an RSA key"
+					if c.Bool(1, 2, simkit.LFault) {
+						// the key-exchange signature covers that certificate, as a consistent server's would
+						sr.SrvSKXOverList = true
+						sr.Why += " (key-exchange signature over it)"
+					}
+					if c.Bool(1, 2, simkit.LFault) {
+						sr.EUTNoVerify = true // the client leaves chain verification to its caller (InsecureSkipVerify)
+					}
 				case 3:
 					sr.SrvCertList = [][]byte{}
 					sr.Why = "empty certificate list"
@@ -791,9 +824,17 @@ func runScriptedPeer(c *simkit.Choice, r *simkit.Rec) {
 			if sr.NPN {
 				cfg.NextProtos = []string{"h2", "http/1.1"}
 			}
+
 			if sr.TLS && sr.Suite == reftls.SuiteRSAAES128CBC2 {
 				// off by default in the Go lineage: list it
 				cfg.CipherSuites = append([]uint16{sr.Suite}, tlsRefSuites...)
+			}
+			cfg.MaxVersion, cfg.MinVersion = sr.EUTMaxVers, sr.EUTMinVers
+			if sr.EUTGetConfig {
+				// the listener's configuration answers through GetConfigForClient
+				inner := cfg
+				cfg = inner.Clone()
+				cfg.GetConfigForClient = func(*gmtls.ClientHelloInfo) (*gmtls.Config, error) { return inner, nil }
 			}
 			conn = gmtls.Server(eutRaw, cfg)
 		} else if sr.TLS {
@@ -803,7 +844,7 @@ func runScriptedPeer(c *simkit.Choice, r *simkit.Rec) {
 			}
 			conn = gmtls.Client(eutRaw, cfg)
 		} else {
-			cfg := &gmtls.Config{GMSupport: gmtls.NewGMSupport(), Rand: entE, Time: simTime(s, 0), RootCAs: pki.Pool("caA"), ServerName: "server.sim", CipherSuites: []uint16{sr.Suite}}
+			cfg := &gmtls.Config{GMSupport: gmtls.NewGMSupport(), Rand: entE, Time: simTime(s, 0), RootCAs: pki.Pool("caA"), ServerName: "server.sim", CipherSuites: []uint16{sr.Suite}, InsecureSkipVerify: sr.EUTNoVerify}
 			if sr.ClientAuth {
 				cfg.Certificates = []gmtls.Certificate{pki.GM("cli")}
 			}
@@ -881,6 +922,7 @@ func runScriptedPeer(c *simkit.Choice, r *simkit.Rec) {
 				cfg.CAs = [][]byte{reftls.SubjectFromCert(pki.DER("rsaCA"))}
 			}
 			cfg.ECDHECurve, cfg.ECDHEWireCurve, cfg.ECDHEPoint = sr.SrvECDHECurve, sr.SrvECDHEWireCurve, sr.SrvECDHEPoint
+			cfg.SKXSigAlg = sr.SrvSKXSigAlg
 			if sr.SrvSKXWrongKey {
 				cfg.SKXRSA = refRSA("tlsrsa2")
 			}
@@ -895,6 +937,9 @@ func runScriptedPeer(c *simkit.Choice, r *simkit.Rec) {
 				RequestCert: sr.ClientAuth, VerifyClient: true, Vers: sr.SrvVers, ChooseSuite: sr.SrvChoose, Compression: sr.SrvCompress, CertList: sr.SrvCertList, HelloExts: sr.ExtraExts}
 			if sr.ClientAuth {
 				cfg.CAs = [][]byte{reftls.SubjectFromCert(pki.DER("caA"))}
+			}
+			if sr.SrvSKXOverList && len(sr.SrvCertList) > 1 {
+				cfg.SKXOverCert = sr.SrvCertList[1]
 			}
 			peerRes, peerErr = reftls.ServerHandshake(pc, cfg)
 		}
@@ -926,6 +971,12 @@ func runScriptedPeer(c *simkit.Choice, r *simkit.Rec) {
 	if sr.ClientAuth {
 		r.Reach(idx(scriptReach, "client-auth-path"))
 	}
+	if sr.EUTMaxVers != 0 || sr.EUTMinVers != 0 {
+		r.Reach(idx(scriptReach, "server-version-bounds"))
+	}
+	if sr.EUTGetConfig {
+		r.Reach(idx(scriptReach, "server-getconfigforclient"))
+	}
 	fired := 0
 	var devDesc []string
 	for _, d := range sr.Devs {
@@ -952,7 +1003,7 @@ func runScriptedPeer(c *simkit.Choice, r *simkit.Rec) {
 		r.Fault(idx(scriptFaults, "hello-suites"))
 	case sr.Compress != nil:
 		r.Fault(idx(scriptFaults, "hello-compression"))
-	case sr.SrvECDHEPoint != nil || sr.SrvECDHEWireCurve != 0 || sr.SrvSKXWrongKey || sr.SrvSKXStale:
+	case sr.SrvECDHEPoint != nil || sr.SrvECDHEWireCurve != 0 || sr.SrvSKXWrongKey || sr.SrvSKXStale || sr.SrvSKXSigAlg != 0:
 		r.Fault(idx(scriptFaults, "ecdhe-server-params"))
 	case sr.SrvVers != 0 || sr.SrvChoose != 0 || sr.SrvCompress != 0:
 		r.Fault(idx(scriptFaults, "server-bad-selection"))
@@ -1040,6 +1091,9 @@ func runScriptedPeer(c *simkit.Choice, r *simkit.Rec) {
 	// a set-byte that rewrote a byte with its own value, or deviations only after
 	// the peer already failed, are honest runs too; detect "nothing changed" by
 	// the peer completing with verified Finished
+	if (sr.EUTMaxVers != 0 || sr.EUTMinVers != 0) && expect == expComplete {
+		expect = expAny
+	}
 	stalled := peerErr == reftls.ErrStalled
 	if !eutFinished {
 		// endpoint still waiting
